@@ -328,6 +328,7 @@ func (m *Manager) newStream(ctx context.Context, sid uint64, kind, rpc string) (
 	// stream as its predecessor. otherwise it neither waits for it to finish
 	// nor moves past its id, and two streams share one stream id on the wire.
 	m.sbuf.Set(stream)
+	drpcdebug.Point("manager.newstream.published", m.tr)
 
 	select {
 	case m.streams <- streamInfo{ctx: ctx, stream: stream}:
